@@ -156,3 +156,119 @@ def oracle_c08(expect):
                     return i + 2, 'literal %r stored as %s, its exact value is %s' % (lit, outs[i + 2][outs[i + 2].find('root='):][:160], want)
         return None
     return oracle
+
+# ------------------------------------------------------------------ C09: error information is history independent
+
+def c09_events():
+    """(name, setup ops, op, expected err line in isolation) — expectations are known by construction,
+    independently of the library and of the model"""
+    H = lambda b: hexs(b)
+    syn = lambda t, f, l: '2 %s %s %d' % (b'syntax error'.hex(), f, l)
+    ev = []
+    ev.append(('ok-string', [], 'read_string ' + H(b'a = 1;\nb = 2;'), '0 - - 0'))
+    ev.append(('syntax-string-l2', [], 'read_string ' + H(b'a = 1;\nb = ;'), syn(0, '-', 2)))
+    ev.append(('syntax-string-l4', [], 'read_string ' + H(b'a = 1;\n\n\nb = = ;'), syn(0, '-', 4)))
+    ev.append(('dup-string-l3', [], 'read_string ' + H(b'a = 1;\nb = 2;\na = 3;'), '2 %s - 3' % b'duplicate setting name'.hex()))
+    ev.append(('mismatch-stream-l2', [], 'read_stream ' + H(b'a = [1,\n2.5];'), '2 %s - 2' % b'mismatched element type in array'.hex()))
+    ev.append(('ok-file', ['mkfile %s %s' % (H(b'ok.cfg'), H(b'x = 1;\n'))], 'read_file ' + H(b'ok.cfg'), '0 - - 0'))
+    ev.append(('syntax-file-l3', ['mkfile %s %s' % (H(b'bad.cfg'), H(b'x = 1;\ny = 2;\nz = ;\n'))], 'read_file ' + H(b'bad.cfg'),
+               '2 %s %s 3' % (b'syntax error'.hex(), b'bad.cfg'.hex())))
+    ev.append(('syntax-in-include-l2', ['mkfile %s %s' % (H(b'inc.cfg'), H(b'p = 1;\nq = ;\n')),
+                                        'mkfile %s %s' % (H(b'top.cfg'), H(b'a = 1;\n@include "inc.cfg"\nb = 2;\n'))],
+               'read_file ' + H(b'top.cfg'), '2 %s %s 2' % (b'syntax error'.hex(), b'inc.cfg'.hex())))
+    ev.append(('missing-include-string-l2', [], 'read_string ' + H(b'a = 1;\n@include "nonexistent.cfg"\n'),
+               '2 %s - 2' % b'cannot open include file'.hex()))
+    ev.append(('missing-file', [], 'read_file ' + H(b'nofile.cfg'), '1 %s - 0' % b'file I/O error'.hex()))
+    ev.append(('directory', ['mkdir ' + H(b'adir')], 'read_file ' + H(b'adir'), '1 %s - 0' % b'file I/O error'.hex()))
+    ev.append(('write-ok', [], 'write_file ' + H(b'out.cfg'), '0 - - 0'))
+    ev.append(('write-fail-nodir', [], 'write_file ' + H(b'nodir/out.cfg'), '1 %s - 0' % b'file I/O error'.hex()))
+    ev.append(('write-fail-isdir', ['mkdir ' + H(b'adir')], 'write_file ' + H(b'adir'), '1 %s - 0' % b'file I/O error'.hex()))
+    return ev
+
+def sess_c09(seqs, events, expect):
+    def fn(impl, rng, stats):
+        for seq in seqs:
+            impl.do('init')
+            for e in seq:
+                name, setup, op, want = events[e]
+                for s in setup:
+                    impl.do(s)
+                impl.do(op)
+                impl.do('err')
+                expect[len(impl.ops) - 1] = (want, [events[x][0] for x in seq])
+                stats['c09:' + name] = stats.get('c09:' + name, 0) + 1
+    return fn
+
+def oracle_c09(expect):
+    def oracle(ops, outs):
+        for i, (want, hist) in expect.items():
+            if i < len(outs) and outs[i] != want:
+                return i, 'after the history %s the error information is %r; this call in isolation reports %r' % (' -> '.join(hist), outs[i], want)
+        return None
+    return oracle
+
+# ------------------------------------------------------------------ C20: entry points and buffer boundaries
+
+PROBES = [b'name-with_long*identifier = 1;', b'v = 2147483647;', b'v = -9223372036854775807L;', b'v = 0xDEADBEEFL;', b'v = 1.7976931348623157e308;',
+          b's = "' + b'z' * 40 + b'";', b's = "a\\n\\t\\x41\\\\\\"b";', b's = "p" /* c */ "q" // d\n "r";', b'/* block\ncomment */ v = 1;',
+          b'# hash comment\nv = true;', b'l = ( 1, [ 2, 3 ], { a = "x"; } );', b'v = = ;', b'v = [1, "x"];', b'v = 1; v = 2;', b's = "unterminated',
+          b'/* unterminated', b'\n@include "c20inc.cfg"\nw = 5;', b'v = 089;', b's = "\\q\\x4";']
+
+def c20_texts(rng, tier):
+    bounds = [8192, 16384] + ([32768] if tier == 'thorough' else [])
+    offs = list(range(-14, 6)) if tier == 'thorough' else [-9, -5, -3, -2, -1, 0, 1, 2]
+    out = []
+    for B in bounds:
+        for pi, probe in enumerate(PROBES):
+            for d in (offs if tier == 'thorough' else [rng.choice(offs) for _ in range(3)]):
+                target = B + d
+                lines = []
+                n = 0
+                i = 0
+                while n < target - 40:
+                    l = b'k%05d = %d;\n' % (i, i * 7)
+                    lines.append(l); n += len(l); i += 1
+                pad = target - n
+                lines.append(b'#' + b'.' * max(pad - 2, 0) + b'\n' if pad >= 2 else b' ' * pad)
+                out.append(b''.join(lines) + probe + b'\ntail = 1;\n')
+    return out
+
+def sess_c20(texts, groups):
+    def fn(impl, rng, stats):
+        impl.do('init')
+        impl.do('mkfile %s %s' % (hexs(b'c20inc.cfg'), hexs(b'inc = 1;\n')))
+        for text in texts:
+            idx = []
+            for e in ('string', 'stream', 'chunked', 'file'):
+                if e == 'string':
+                    impl.do('read_string ' + hexs(text))
+                elif e == 'stream':
+                    impl.do('read_stream ' + hexs(text))
+                elif e == 'chunked':
+                    impl.do('read_chunked %d %s' % (rng.choice([1, 7, 4095, 4096, 8191, 8192, 8193, rng.range(1, 9000)]), hexs(text)))
+                else:
+                    impl.do('mkfile %s %s' % (hexs(b'in.cfg'), hexs(text)))
+                    impl.do('read_file ' + hexs(b'in.cfg'))
+                impl.do('err'); impl.do('dump')
+                idx.append(len(impl.ops) - 3)
+                stats['c20:' + e] = stats.get('c20:' + e, 0) + 1
+            groups.append(idx)
+    return fn
+
+import re as _re
+def _nofile(dump):
+    d = dump[dump.find('root='):]
+    return _re.sub(r',[0-9a-f=\-]+\)', ')', d)
+
+def oracle_c20(groups):
+    def oracle(ops, outs):
+        for g in groups:
+            if g[-1] + 2 >= len(outs):
+                continue
+            res = [(outs[i].split(' ')[0], ' '.join(outs[i + 1].split(' ')[:2]), outs[i + 1].split(' ')[-1], _nofile(outs[i + 2])) for i in g]
+            for j in range(1, len(res)):
+                if res[j] != res[0]:
+                    what = ['result', 'error type/text', 'error line', 'configuration'][[a != b for a, b in zip(res[j], res[0])].index(True)]
+                    return g[j] + 2, 'the %s differs between read_string and %s for the same %d bytes' % (what, ops[g[j]].split(' ')[0], (len(ops[g[0]]) - 12) // 2)
+        return None
+    return oracle
